@@ -444,7 +444,8 @@ class Driver:
             self.clock = max(newt.values())
         others1 = self.other_files_sig()
         for k in list(others1):
-            if k == ".gwf/spec-hashes.json":
+            # the hash file is judged separately; the data file behind a symlinked output is touched with it
+            if k == ".gwf/spec-hashes.json" or k.startswith("blob_"):
                 others1.pop(k)
                 others0.pop(k, None)
         after, _, _ = self.after()
@@ -530,6 +531,8 @@ class Driver:
     def step_env(self, h):
         sb = self.sb
         a = h["act"]
+        if a in ("EditSource", "DeleteOutput") and sb.mtime(h["f"]) is None:
+            return   # the generated step does not apply to the real project any more (history diverged): no event
         if a == "EditSource":
             self.clock += 1
             sb.set_file(h["f"], self.clock, content="edited at %d\n" % self.clock)
